@@ -3541,6 +3541,8 @@ void space_text()
       }
 
       if (  (options::use_options_overriding_for_qt_macros())
+         && !QT_SIGNAL_SLOT_found
+         && pc->GetNext()->IsParenOpen()         // the macro call, not a word that happens to be spelled so
          && (  (strcmp(pc->Text(), "SIGNAL") == 0)
             || (strcmp(pc->Text(), "SLOT") == 0)))
       {
